@@ -157,21 +157,19 @@ def _layered(env, tb, spec, model, rows, batch, hcode, ncode, cs, cb, absent):
                 if present:
                     if cs is not None:
                         v = env.ite(v < N(cs), N(cs), v)
-                    acc = acc + v
                     k = "L3:by-sample"
                 else:
-                    # a sample that the channel does not list contributes nothing (stated under its own
-                    # key); the bin total below is then checked against what the cell actually reports,
-                    # so that the two questions stay separate
+                    # a sample that the channel does not list contributes nothing (stated under its own key)
                     v = N(0)
                     k = "L3:by-sample:clip+absent-sample"
-                    acc = acc + N(bys_rows[r][si][g])
                 env.eq(f"L3:by-sample[r{r},{sname},{c},{b}]", bys_rows[r][si][g], v, key=k)
+                # the bin total is checked against the per-sample cells the model itself reports (each of
+                # which is tied to the formula by the obligation above): compositional, and the clip
+                # conditions are then the same terms on both sides
+                acc = acc + N(bys_rows[r][si][g])
             if cb is not None:
                 acc = env.ite(acc < N(cb), N(cb), acc)
             env.eq(f"L3:rate[r{r},{c},{b}]", tot_rows[r][g], acc, key="L3:rate")
-
-
 
 
 def harness_for(item):
